@@ -333,6 +333,43 @@ def vi_unnamed_scenario(args):
     return 'ok', wit
 
 
+def failed_write_scenario(args):
+    """a save that goes wrong part-way (fault shim of C03: the n-th open/write/close of the save fails, also after a short count):
+    whatever the editor reports, while the file differs from the text the buffer is starred and :q / :e are refused"""
+    import c03
+    vi, so, idx = args
+    R = rng('c02fw', idx)
+    bname, content, edit, want = R.choice(c03.buffers()[1:])
+    err = R.choice(['ENOSPC', 'EIO', 'EDQUOT', 'EFBIG'])
+    k = R.randint(1, 3)
+    fault = R.choice(['write:%d:%s' % (k, err), 'write:%d:shorthalf,write:%d:%s' % (k, k + 1, err), 'write:%d:short1,write:%d:%s' % (k, k + 1, err),
+                      'write:%d:shortallbut1,write:%d:%s' % (k, k + 1, err), 'close:1:%s' % err, 'open:1:EACCES'])
+    cmd = R.choice([b'w', b'w', b'w!', b'wq', b'x', b'w|q', b'xa'])
+    attempt = R.choice([b'q', b'q', b'e f2', b'b 1'])
+    script = edit + cmd + b'\nec ' + S(0) + b'\nb\nec ' + S(1) + b'\n' + attempt + b'\nec ' + S(2) + b'\nb\nec ' + S(3) + b'\n'
+    r, d, lg = c03.run_ex(vi, so, script + b'q!\n', {'f1': content, 'f2': b'two\n'}, fault)
+    disk = common.readf(d, 'f1')
+    common.rmcase(d)
+    wit = {'index': idx, 'buffer': bname, 'command': cmd.decode(), 'fault': fault, 'attempt': attempt.decode()}
+    if r.timed_out:
+        return None, wit
+    if lg.count('INJECTED') < fault.count(',') + 1:
+        return 'not-fired', wit
+    if disk == want:
+        return 'saved', wit
+    if S(0) not in r.out:
+        return ('failed-save-exits', 'buffer %s, %s with fault %s: the file holds %d bytes, the text %d, and the editor exited' % (bname, cmd.decode(), fault, len(disk or b''), len(want)), ), wit
+    l0 = parse_blist(seg(r.out, 0, 1) or b'')
+    if not any(st for _, a, pth, st in l0 if pth == 'f1'):
+        return ('clean-flag-after-failed-save', 'buffer %s, %s with fault %s: the file holds %d bytes, the text %d, and the buffer is listed as unmodified' % (bname, cmd.decode(), fault, len(disk or b''), len(want)), ), wit
+    if S(2) not in r.out:
+        return ('quit-after-failed-save', 'buffer %s, %s with fault %s: :%s after the failed save exited' % (bname, cmd.decode(), fault, attempt.decode()), ), wit
+    l1 = parse_blist(seg(r.out, 2, 3) or b'')
+    if [pth for _, a, pth, _ in l1 if a == '%'] != ['f1']:
+        return ('switch-after-failed-save', 'buffer %s, %s with fault %s: :%s left the unsaved buffer: %s' % (bname, cmd.decode(), fault, attempt.decode(), l1), ), wit
+    return 'refused', wit
+
+
 def run(tier, V):
     vi = build('plain')
     n = 400 if tier == 'quick' else 4000
@@ -374,9 +411,20 @@ def run(tier, V):
         else:
             un_ok += 1
     nun += nvu
-    cov = {'evaluations': checks + nw + 1 + nfull + nun, 'unnamed_buffer_scenarios': nun, 'unnamed_refusals_or_saves_observed': un_ok, 'distinct_nontrivial': dirty + nw + nfull, 'full_table_scenarios': nfull, 'histories': n, 'prefix_probes': checks, 'probes_with_a_dirty_buffer': dirty, 'saved_position_walks': nw,
+    import c03
+    so = c03.build_shim()
+    nfw = 200 if tier == 'quick' else 2000
+    fw = {}
+    for res_u, wit in pmap(failed_write_scenario, [(vi, so, base + i) for i in range(nfw)]):
+        if res_u is None:
+            V.inconclusive += 1
+        elif isinstance(res_u, tuple):
+            V.violation(res_u[0], res_u[1], wit)
+        else:
+            fw[res_u] = fw.get(res_u, 0) + 1
+    cov = {'evaluations': checks + nw + 1 + nfull + nun + nfw, 'failed_save_scenarios': fw, 'unnamed_buffer_scenarios': nun, 'unnamed_refusals_or_saves_observed': un_ok, 'distinct_nontrivial': dirty + nw + nfull, 'full_table_scenarios': nfull, 'histories': n, 'prefix_probes': checks, 'probes_with_a_dirty_buffer': dirty, 'saved_position_walks': nw,
            'rule': ('%d random histories (modify, u, redo, w, w!, partial own-path writes, writes to other paths, e!, e, e!, e +cmd / e! +cmd with commands that edit, e #, b N/+/-, several commands on one line) over 2-4 files; EVERY prefix is run in a fresh process followed by a probe '
-                    '(list, dump of every open buffer, attempt :q / :e / :b without !, list).  oracle: dumped text vs the file now on disk.  + %d edit/save/undo/redo walks with a position model (both directions) + the 17-path LRU scenario + scenarios with 12-16 buffers open, dirty ones anywhere in the MRU table, then :q/:x/:wq + scenarios that start without a file name and write to pipes, parts, new names before :q/:x/:wq/:e, or (vi) split and switch windows first. '
+                    '(list, dump of every open buffer, attempt :q / :e / :b without !, list).  oracle: dumped text vs the file now on disk.  + %d edit/save/undo/redo walks with a position model (both directions) + the 17-path LRU scenario + scenarios with 12-16 buffers open, dirty ones anywhere in the MRU table, then :q/:x/:wq + scenarios that start without a file name and write to pipes, parts, new names before :q/:x/:wq/:e, or (vi) split and switch windows first + saves made to fail part-way by the fault shim (error after a short count, at close, at open) followed by :q / :e / :b. '
                     'non-trivial = a probe in which some open buffer differed from its file (the refusal path was exercised), or a walk.' % (n, nw)),
            'samples': [{'prefix': [c.decode() for c, _ in make_history(rng('c02', base), 3)][:8]}]}
     assumptions = ['no foreign writer: "content when last read or written" is what is on disk when the probe runs', 'aw/wa options off',
